@@ -627,7 +627,7 @@ fn end_to_end(ctx: &Ctx, t: &mut Tally) -> Value {
         } else if v["opened_by_uid_65534"]["record"].is_null() {
             t.add("C16:e2e:read-back-fails", format!("{}: another user can open the segment but snapshot() fails: {}", sc.name, v["opened_by_uid_65534"]["snapshot"]), doc.clone());
         }
-        report.push(json!({"scenario": sc.name, "publications": n, "segment_mode": v["segment_mode_octal"], "directory_mode": v["directory_mode_octal"], "opened_by_uid_65534": v["opened_by_uid_65534"]["open"]}));
+        report.push(json!({"scenario": sc.name, "publications": n, "segment_mode": v["segment_mode_octal"], "directory_mode": v["directory_mode_octal"], "opened_by_uid_65534": v["opened_by_uid_65534"]["open"], "machine": v["machine"]}));
     }
     json!({"scenarios": report})
 }
